@@ -155,16 +155,28 @@ class Lean:
                 res[m.group(2)] = m.group(3).split()
         return res
 
-    def source_audit(self):
-        """grep the library (comments and strings stripped) for forbidden constructs."""
+    def import_closure(self, modules):
+        """Files of FAVerif.* modules reachable from `modules` through `import` lines."""
+        seen, todo = {}, list(modules)
+        while todo:
+            m = todo.pop()
+            if m in seen or not m.startswith("FAVerif"):
+                continue
+            path = os.path.join(LEAN_DIR, *m.split(".")) + ".lean"
+            if not os.path.exists(path):
+                continue
+            seen[m] = path
+            for mm in re.finditer(r"^\s*(?:public\s+)?import\s+(\S+)", open(path).read(), re.M):
+                todo.append(mm.group(1))
+        return seen
+
+    def source_audit(self, modules):
+        """grep the import closure (comments and strings stripped) for forbidden constructs."""
         hits = []
-        for base, _dirs, files in os.walk(os.path.join(LEAN_DIR, "FAVerif")):
-            for fn in files:
-                if fn.endswith(".lean"):
-                    p = os.path.join(base, fn)
-                    for k, line in enumerate(_strip_comments(open(p).read()).split("\n"), 1):
-                        if FORBIDDEN.search(line):
-                            hits.append(f"{os.path.relpath(p, LEAN_DIR)}:{k}: {line.strip()[:120]}")
+        for _m, p in sorted(self.import_closure(modules).items()):
+            for k, line in enumerate(_strip_comments(open(p).read()).split("\n"), 1):
+                if FORBIDDEN.search(line):
+                    hits.append(f"{os.path.relpath(p, LEAN_DIR)}:{k}: {line.strip()[:120]}")
         return hits
 
     def driver(self, name, lines, timeout=1800, args=()):
@@ -306,7 +318,7 @@ class Ctx:
                 self.obligation(full, not bad, axioms=axs, kind="aux")
                 if bad:
                     broken.append(self.broken(f"axioms:{full}", f"depends on non-standard axioms {bad}"))
-        hits = self.lean.source_audit()
+        hits = self.lean.source_audit(list(modules) + list(extra_targets))
         self.obligation("source-audit(no sorry/admit/axiom/native_decide/bv_decide/implemented_by/unsafe/maxHeartbeats 0)", not hits, kind="audit")
         if hits:
             broken.append(self.broken("source-audit", "\n".join(hits)))
